@@ -1,0 +1,14 @@
+//go:build verif
+
+package gengo
+
+// VerifHook, when set, receives internal events of a run (only with build tag verif).
+// It is used by external runtime monitors to observe (and to inject faults at) the points
+// between file operations of Execute.
+var VerifHook func(point string, detail string)
+
+func verifPoint(point string, detail string) {
+	if VerifHook != nil {
+		VerifHook(point, detail)
+	}
+}
